@@ -176,7 +176,8 @@ def check_add_multiple(repo, rep):
                   "overwrite the overlap and keep timestamps strictly increasing without duplicates")
     t0 = 1_600_000_000_000 // MIN * MIN
     # (name, stored rows, chunk first minute, chunk length)
-    cases = [("empty", 0, 0, 3), ("newer", 3, 3, 3), ("same-chunk-again", 3, 0, 3), ("tail-overlap-full", 4, 2, 2)]
+    cases = [("empty", 0, 0, 3), ("newer", 3, 3, 3), ("same-chunk-again", 3, 0, 3), ("tail-overlap-full", 4, 2, 2),
+             ("tail-overlap-partial", 4, 3, 3)]
     for name, n, first, m in cases:
         def mk(dec):
             it = Interp(repo, stubs=W.base_stubs(), decisions=dec)
